@@ -322,6 +322,135 @@ fn isolate(ctx: &Ctx) -> Vec<Eng> {
     vec![e]
 }
 
+/// `to_dyn!` argument forms: the macro takes an *expression*. The conversion must evaluate it
+/// exactly once and alias the object that this one evaluation denotes, whatever the expression
+/// is: a variable, a clone, a consuming expression (`Option::take`, `Vec::pop`, an iterator's
+/// `next`, `mem::replace`), a block with a side effect, or a call that builds a new target.
+fn arg_forms<P: Target>(v: Variant, e: &mut Eng) {
+    const FORMS: [&str; 8] = ["variable", "clone()", "Option::take().unwrap()", "Vec::pop().unwrap()", "Iterator::next().unwrap()", "mem::replace(&mut slot, other)", "block with a counter", "call building a fresh target"];
+    for (fi, fname) in FORMS.iter().enumerate() {
+        let (fa, fb) = (Arc::new(AtomicBool::new(false)), Arc::new(AtomicBool::new(false)));
+        let mut leaks: Vec<Leak<P>> = Vec::new();
+        let r = guard(|| -> Result<(), String> {
+            let (a, la) = make::<P>(v, &fa);
+            let (b, lb) = make::<P>(v, &fb);
+            leaks.push(la);
+            leaks.push(lb);
+            a.borrow_mut().setv(11);
+            b.borrow_mut().setv(22);
+            let (ka, kb) = (a.clone(), b.clone()); // witnesses kept by the harness
+            let mut evals = 0u32;
+            // `want` = which target the single evaluation of the argument denotes (0 = a, 1 = b, 2 = fresh)
+            let (d, want, rest_ok): (Reference<dyn Val>, u8, bool) = match fi {
+                0 => {
+                    drop(b);
+                    (to_dyn!(Val, a), 0, true)
+                }
+                1 => {
+                    let d = to_dyn!(Val, a.clone());
+                    drop(b);
+                    (d, 0, a.borrow().getv() == 11)
+                }
+                2 => {
+                    drop(b);
+                    let mut slot = Some(a);
+                    let d = to_dyn!(Val, slot.take().unwrap());
+                    (d, 0, slot.is_none())
+                }
+                3 => {
+                    let mut stack = vec![a, b];
+                    let d = to_dyn!(Val, stack.pop().unwrap());
+                    let ok = stack.len() == 1 && stack[0].borrow().getv() == 11;
+                    (d, 1, ok)
+                }
+                4 => {
+                    let mut it = vec![a, b].into_iter();
+                    let d = to_dyn!(Val, it.next().unwrap());
+                    let rest: Vec<Reference<P>> = it.collect();
+                    let ok = rest.len() == 1 && rest[0].borrow().getv() == 22;
+                    (d, 0, ok)
+                }
+                5 => {
+                    let mut slot = a;
+                    // (every form must still compile if a macro evaluated its argument twice: a harness
+                    // that stops compiling is a machinery failure, not a verdict)
+                    let d = to_dyn!(Val, core::mem::replace(&mut slot, b.clone()));
+                    let ok = slot.borrow().getv() == 22;
+                    (d, 0, ok)
+                }
+                6 => {
+                    drop(a);
+                    let mut slot = Some(b);
+                    let d = to_dyn!(Val, {
+                        evals += 1;
+                        slot.take().unwrap()
+                    });
+                    (d, 1, evals == 1)
+                }
+                _ => {
+                    drop(a);
+                    drop(b);
+                    let mut built: Vec<Leak<P>> = Vec::new();
+                    let fc = Arc::new(AtomicBool::new(false));
+                    let mut mk = || {
+                        evals += 1;
+                        let (c, lc) = make::<P>(v, &fc);
+                        built.push(lc);
+                        c.borrow_mut().setv(30 + evals as i64);
+                        c
+                    };
+                    let d = to_dyn!(Val, mk());
+                    let n = built.len();
+                    leaks.extend(built);
+                    (d, 2, evals == 1 && n == 1)
+                }
+            };
+            if !rest_ok {
+                return Err(format!("the argument expression was not evaluated exactly once (evaluations counted: {}; or what the expression left behind is not what one evaluation leaves)", evals));
+            }
+            let expect = [11, 22, 31][want as usize];
+            let got = d.borrow().getv();
+            if got != expect {
+                return Err(format!("the converted Reference reads {} but the object its argument denotes holds {}", got, expect));
+            }
+            d.borrow_mut().setv(77);
+            let (va, vb) = (ka.borrow().getv(), kb.borrow().getv());
+            let want_ab = match want {
+                0 => (77, 22),
+                1 => (11, 77),
+                _ => (11, 22),
+            };
+            if (va, vb) != want_ab {
+                return Err(format!("after a write of 77 through the converted Reference the two witnesses read ({}, {}) instead of {:?}", va, vb, want_ab));
+            }
+            Ok(())
+        });
+        unsafe {
+            for l in leaks.drain(..) {
+                match l {
+                    Leak::P(p) => drop(Box::from_raw(p)),
+                    #[cfg(feature = "std")]
+                    Leak::RW(p) => drop(Box::from_raw(p)),
+                    #[cfg(feature = "std")]
+                    Leak::MX(p) => drop(Box::from_raw(p)),
+                    Leak::None => {}
+                }
+            }
+        }
+        e.executions += 1;
+        e.states += 1;
+        e.transitions += 1;
+        e.checks += 4;
+        e.nontrivial += 1;
+        e.outcome(h64(&(v as u8, fi as u8, P::NAME)));
+        match r {
+            Ok(Ok(())) => {}
+            Ok(Err(m)) => e.violation(&format!("reference:{:?}:to_dyn-argument", v), 1, || format!("{:?} target {} to_dyn!(Val, <{}>): {}", v, P::NAME, fname, m)),
+            Err(m) => e.violation(&format!("reference:{:?}:to_dyn-argument", v), 1, || format!("{:?} target {} to_dyn!(Val, <{}>) panicked: {}", v, P::NAME, fname, m)),
+        }
+    }
+}
+
 pub fn run(ctx: &Ctx) -> Vec<Eng> {
     if std::env::var("VERIF_ISOLATE").is_ok() {
         return isolate(ctx);
@@ -366,5 +495,18 @@ pub fn run(ctx: &Ctx) -> Vec<Eng> {
         });
     }
     e.bounds.push_str(&format!("; plus all 12-operation sequences within {} deviations of read(h0) repeated", k));
-    vec![e]
+    let mut f = Eng::new(
+        "c17-to_dyn-argument-forms",
+        "for each variant the macro lists x 3 target layouts x 8 argument expression forms (variable, clone(), Option::take().unwrap(), Vec::pop().unwrap(), Iterator::next().unwrap(), mem::replace, a block with a side effect, a call that builds a fresh target) over two distinguishable targets: the conversion evaluates its argument exactly once, reads the value of the object that evaluation denotes, and a write through it is seen by the harness' witness clone of that object and not by the other target",
+        "8 argument forms x listed variants x 3 layouts (complete for this family)",
+    );
+    for v in variants() {
+        if v.dyn_listed() {
+            arg_forms::<Pl>(v, &mut f);
+            arg_forms::<PlWide>(v, &mut f);
+            arg_forms::<PlPage>(v, &mut f);
+        }
+    }
+    f.max_depth = 1;
+    vec![e, f]
 }
